@@ -149,6 +149,15 @@ def run_sequence(sc):
                         expiry.pop(k, None)
                         remember(k)
                         file_model = copy.deepcopy(model)
+                elif o == "copy":
+                    # the object the store handed out for one key is assigned under another key (or under the same one): the value is stored there, whatever it was read from
+                    src = op["src"]
+                    if is_redis and src in model:
+                        s[k] = s[src]
+                        model[k] = copy.deepcopy(model[src])
+                        expiry.pop(k, None)
+                        remember(k)
+                        file_model = copy.deepcopy(model)
                 elif o == "reset_equal":
                     # the key is set again to a value equal to the one it holds (e.g. after nested updates that the file store only keeps in memory)
                     if k in model:
@@ -359,6 +368,7 @@ def strategies():
         if not is_list or True:
             o += [st.fixed_dictionaries({"op": st.just("reset_equal"), "key": key, "client": cl})]
         if is_redis:
+            o += [st.fixed_dictionaries({"op": st.just("copy"), "key": key, "src": key, "client": cl})] * 2
             o += [st.fixed_dictionaries({"op": st.just("deliver"), "n": st.sampled_from([None, None, 1, 2])})] * 2
             o += [st.fixed_dictionaries({"op": st.just("ttl"), "key": key, "seconds": st.sampled_from([5, 60, 86400]), "client": cl}),
                   st.fixed_dictionaries({"op": st.just("advance"), "seconds": st.sampled_from([1, 4, 6, 100])})]
@@ -404,7 +414,7 @@ def nontrivial(sc):
     ops = sc["ops"]
     wrote = {}
     for i, o in enumerate(ops):
-        if o["op"] in ("set", "nested", "append", "rmw", "reset_equal"):
+        if o["op"] in ("set", "nested", "append", "rmw", "reset_equal", "copy"):
             wrote[o["key"]] = (i, o.get("client", 0))
         if o["op"] in ("get", "getdefault", "cached", "contains") and o["key"] in wrote:
             wi, wc = wrote[o["key"]]
